@@ -133,11 +133,54 @@ def _cap(case, cap):
 
 
 def strategy(tier):
-    shift = st.builds(lambda k: {"kind": "shift", "k": k}, st.integers(-300, 300))
-    return st.one_of(shift, _system(tier == "thorough"), _system(tier == "thorough"))
+    # "phase": the displacement may be complex (the operator is defined for complex alpha)
+    shift = st.builds(lambda k, ph: {"kind": "shift", "k": k, "phase": ph}, st.integers(-300, 300),
+                      st.sampled_from([0, 0, 1, 2, 3, 5]))
+    # a single mode: excited-state frequency different from the ground-state one, set before the Huang-Rhys factor;
+    # level counts beyond 20
+    mode1 = st.builds(lambda w, r, hr20, n0, n1: {"kind": "mode", "w": w, "ratio": r, "hr20": hr20, "n0": n0, "n1": n1},
+                      st.integers(100, 1500), st.sampled_from([1.0, 0.95, 1.1, 0.8]), st.integers(1, 60),
+                      st.integers(1, 4) | st.sampled_from([21, 24]), st.integers(1, 4) | st.sampled_from([22, 26, 30]))
+    return st.one_of(shift, mode1, _system(tier == "thorough"), _system(tier == "thorough"))
+
+
+def _mode(case, ctx):
+    import quantarhei as qr
+    hr = case["hr20"] / 20.0
+    ctx.label("single-mode", "levels>20" if max(case["n0"], case["n1"]) > 20 else "levels<=20",
+              "same-frequency" if case["ratio"] == 1.0 else "other-frequency-in-excited-state")
+    ctx.mark_nontrivial(case["ratio"] != 1.0 or max(case["n0"], case["n1"]) > 20)
+
+    def make():
+        with qr.energy_units("1/cm"):
+            mol = qr.Molecule([0.0, 12000.0])
+            mode = qr.Mode(float(case["w"]))
+            mol.add_Mode(mode)
+            if case["ratio"] != 1.0:
+                mode.set_energy(1, float(case["w"]) * case["ratio"])
+            mode.set_nmax(0, case["n0"])
+            mode.set_nmax(1, case["n1"])
+            mode.set_HR(1, hr)
+        return mol, mode
+    ok, mm = guarded(ctx, "mode/construct", make)
+    if not ok:
+        return
+    mol, mode = mm
+    # the Huang-Rhys factor is the Poisson mean of the overlaps from the vibrational ground state: shift = sqrt(2 S)
+    ctx.close("hr-shift", mode.get_shift(1), math.sqrt(2.0 * hr), rtol=1e-12, atol=1e-14, where="single-mode")
+    ctx.close("hr-roundtrip", mode.get_HR(1), hr, rtol=1e-12, atol=1e-14, where="single-mode")
+    for el in (0, 1):
+        if int(mode.get_nmax(el)) != case["n%d" % el]:
+            ctx.fail("molecule/state-count", "declared-levels", state=el, got=int(mode.get_nmax(el)), want=case["n%d" % el])
+            return
+    ok, hm = guarded(ctx, "molecule/hamiltonian", lambda: mol.get_Hamiltonian())
+    if ok and int(hm.dim) != case["n0"] + case["n1"]:
+        ctx.fail("molecule/state-count", "single-mode", got=int(hm.dim), want=case["n0"] + case["n1"])
 
 
 def check_case(case, ctx):
+    if case["kind"] == "mode":
+        return _mode(case, ctx)
     if case["kind"] == "shift":
         return _shift(case, ctx)
     return _system_check(case, ctx)
@@ -146,6 +189,22 @@ def check_case(case, ctx):
 def _shift(case, ctx):
     from quantarhei.qm.oscillators.ho import operator_factory
     d = case["k"] / 100.0
+    if case.get("phase"):
+        # complex displacement alpha = d exp(i phi): the operator is unitary and the overlaps from the ground state are
+        # Poisson with mean |alpha|^2 / 2
+        alpha = d * complex(math.cos(case["phase"] * math.pi / 7.0), math.sin(case["phase"] * math.pi / 7.0))
+        ctx.label("shift:complex")
+        ctx.mark_nontrivial(abs(d) >= 0.3)
+        ok, S = guarded(ctx, "shift-operator", lambda: operator_factory(100).shift_operator(alpha), "complex")
+        if not ok:
+            return
+        S = numpy.asarray(S)
+        Sf = abs(alpha) ** 2 / 2.0
+        pois = numpy.array([math.exp(-Sf) * Sf ** n / math.factorial(n) for n in range(20)])
+        ctx.close("franck-condon/poisson", numpy.abs(S[:20, 0]) ** 2, pois, rtol=0, atol=1e-9, where="complex", d=d)
+        ctx.close("franck-condon/rows-normalised", numpy.sum(numpy.abs(S[:20, :]) ** 2, axis=1), numpy.ones(20), rtol=0,
+                  atol=1e-8, where="complex")
+        return
     ctx.label("shift")
     ctx.mark_nontrivial(abs(d) >= 0.3)
     ok, S = guarded(ctx, "shift-operator", lambda: operator_factory(100).shift_operator(d))
